@@ -147,14 +147,45 @@ def locks_of(ctx_or_eng, fb, f):
 
 # ---------------------------------------------------------- field accesses
 def field_refs(f, cls):
-    """MemberExpr statements naming a field of class template `cls` on `this`"""
+    """statements that denote a field of class template `cls`: MemberExpr nodes, and - in an inlined view - the uses
+    of a helper parameter that was bound BY REFERENCE (or as a pointer) to such a field.  The binding itself
+    (`helper(m_mutex, m_obj)` evaluates `m_obj` only to bind the reference) is not an access; the helper's uses of the
+    parameter are, at the point and in the lock state where they happen."""
+    from .engine import _ref_target
+    alias = {}       # declaration id of an inlined parameter -> MemberExpr it is bound to
+    binds = set()    # ids of MemberExpr nodes that only initialise such a parameter
+    if getattr(f, "orig", None) is not None:
+        for st in f.stmts.values():
+            if st["k"] != "DeclStmt":
+                continue
+            for d in st["decls"]:
+                if not d.get("inl") or not d.get("init"):
+                    continue
+                if not (d.get("ref") or d.get("type", "").rstrip().endswith("*")):
+                    continue
+                e = f.s(d["init"])
+                amp = False
+                while e is not None and (e["k"] in WRAPPERS or (e["k"] == "UnaryOperator" and e.get("op") == "&") or
+                                         (e["k"] == "CallExpr" and callee_fq(e) in ("std::forward", "std::move", "std::addressof"))):
+                    ch = f.children(e) if e["k"] != "CallExpr" else [f.s(e["args"][0])]
+                    e = ch[0] if ch else None
+                if e is not None and e["k"] == "MemberExpr" and e["m"].get("is_field") and e["m"].get("rec") == cls:
+                    alias[d["id"]] = e
+                    binds.add(e["id"])
     for st in f.stmts.values():
-        if st["k"] != "MemberExpr":
-            continue
-        m = st["m"]
-        if not m.get("is_field") or m.get("rec") != cls:
-            continue
-        yield st
+        if st["k"] == "MemberExpr":
+            m = st["m"]
+            if not m.get("is_field") or m.get("rec") != cls or st["id"] in binds:
+                continue
+            yield st
+        elif alias and st["k"] == "DeclRefExpr" and st["d"].get("id") in alias:
+            tgt = alias[st["d"]["id"]]
+            v = type(st)(st)
+            v["m"] = tgt["m"]
+            v["base"] = tgt.get("base")
+            v["arrow"] = tgt.get("arrow")
+            v["via_param"] = st["d"].get("name")
+            yield v
 
 
 def class_functions(fb, cls, include_lambdas=True):
